@@ -68,8 +68,10 @@ boost::optional<H5Group> GroupHDF5::findEntityGroup(const nix::Identity &ident) 
 
     if (foundNeedle) {
         g = boost::make_optional(p->openGroup(needle, false));
-    } else if (haveName) {
-        g = p->findGroupByAttribute("name", iname);
+    } else {
+        // members are linked under their id; a name that looks like a UUID is
+        // classified as an id but still has to be looked up as a name
+        g = p->findGroupByAttribute("name", haveName ? iname : iid);
     }
 
     if (g && haveName && haveId) {
